@@ -177,7 +177,9 @@ def algebra_collect(acc, impl, n, prop, min_choices=(0, 1, 2, 3), res=3600):
     n_eval = 0
     with use(impl):
         sb = m["sb"].Scoreboard(start, end, res)
-    assert sb.size == n
+    if sb.size != n:
+        acc.violation(prop, "size", dict(impl=impl, res=res, start=start, end=end, size=sb.size, want=n), [], None)
+        return 0
     TI = m["TI"]
     pred = lambda v: v == 1
     for bits_i in range(1 << n):
